@@ -115,7 +115,9 @@ static_assert(FSM::stateId<Rt>() == ffsm2::INVALID_STATE_ID, "the root head must
 #endif
 static_assert(N - 1 < (1 << ffsm2::bitWidth(N)), "bitWidth(N) cannot encode every state index");
 #if VX_SER
-static_assert(Inst::SerialBuffer::BIT_CAPACITY == 1 + ffsm2::bitWidth(N), "SERIAL_BITS != 1 + bitWidth(N)");
+// the declared capacity suffices for the activity bit plus an index of every state (a larger buffer is fine; what save() really
+// writes is checked against the declared capacity and the guard bytes at run time)
+static_assert(Inst::SerialBuffer::BIT_CAPACITY >= 1 + (N > 1 ? ffsm2::bitWidth(N - 1) : 0), "buffer capacity cannot hold the activity bit and every state index");
 #endif
 
 static const void* g_obj[N + 1];
